@@ -2,6 +2,7 @@
 C19 — all query entry points and anchors agree.
 -/
 import Ajson.Model.Path
+import Ajson.Proofs.Anchor
 
 namespace Ajson.Props.C19
 open Ajson Ajson.Heap
@@ -39,5 +40,43 @@ theorem root_step (fuel : Nat) (h : Heap) (n p : Id) (hp : (h.get n).parent = so
 
 theorem root_of_root (fuel : Nat) (h : Heap) (n : Id) (hp : (h.get n).parent = none) : rootAux (fuel + 1) h n = n := by
   simp [rootAux, hp]
+
+/-! ### anchors -/
+
+/-- **a path starting with `$` gives the same result from every node of a tree**: for every registry, every heap — parsed,
+constructed or edited, sound or not — and any two start nodes with the same `root()`, a query whose first command is `$` returns the
+same nodes in the same order (or the same error) and leaves the same heap. The reason (`Proofs/Anchor`): a command other than `$`
+and `@` never looks at the start node, `$` looks at it only through `root()`, and both only in first position. -/
+theorem C19_dollar_same_from_every_node (env : Env) (fuel : Nat) (h : Heap) (s1 s2 : Id) (rest : List Bytes)
+    (hroot : h.root s1 = h.root s2) :
+    h.applyJSONPath env fuel (some s1) ([36] :: rest) = h.applyJSONPath env fuel (some s2) ([36] :: rest) :=
+  Ajson.Proofs.dollar_same_from_every_node env fuel h s1 s2 rest hroot
+
+/-- … and a path whose first command is neither `$` nor `@` does not depend on the start node at all -/
+theorem C19_anchorless_same (env : Env) (fuel : Nat) (h : Heap) (s1 s2 : Id) (c : Bytes) (rest : List Bytes) (h36 : c ≠ [36]) (h64 : c ≠ [64]) :
+    h.applyJSONPath env fuel (some s1) (c :: rest) = h.applyJSONPath env fuel (some s2) (c :: rest) :=
+  Ajson.Proofs.anchorless_same env fuel h s1 s2 c rest h36 h64
+
+/-- **a path starting with `@`, evaluated at node n, is `Path(n)` followed by the rest, evaluated at the root**: whenever the commands
+`pre`, run from the root `r`, designate exactly the node `n` and leave the heap as it is — what the commands of `Path(n)` do (C16) —
+the query `pre ++ rest` from the root and the query `@ rest` from `n` return the same nodes (or the same error) and the same heap -/
+theorem C19_at_is_path_then_rest (env : Env) (fuel : Nat) (h : Heap) (r n : Id) (pre rest : List Bytes) (k : Nat) (hk : k ≠ 0)
+    (toks : List Bytes) (ht : Cur.tokenize env.tbl [64] = .ok toks)
+    (hpre : foldH (Ajson.Proofs.pathStep env fuel r) h pre (0, []) = (h, .ok (k, [n]))) :
+    h.applyJSONPath env (fuel + 1) (some r) (pre ++ rest) = h.applyJSONPath env (fuel + 1) (some n) ([64] :: rest) :=
+  Ajson.Proofs.at_is_path_then_rest env fuel h r n pre rest k hk toks ht hpre
+
+/-- the premise is met (kernel evaluation): in `{"a":[10,{"b":2}]}` the commands of `$['a'][1]` run from the root designate the
+second element of `a`, use three positions and leave the heap as it is -/
+example :
+    (match unmarshal "{\"a\":[10,{\"b\":2}]}".toUTF8.toList with
+     | .error _ => false
+     | .ok (h, r) =>
+       match parseJSONPath "$['a'][1]".toUTF8.toList with
+       | .ok pre =>
+         (match foldH (Ajson.Proofs.pathStep ⟨builtinTable, {}⟩ 50 r) h pre (0, []) with
+          | (h1, .ok (k, [n])) => k == 3 && h1.nodes == h.nodes && (h.get n).index == some 1 && h.typeOf n == .object
+          | _ => false)
+       | _ => false) = true := by decide +kernel
 
 end Ajson.Props.C19
